@@ -7,6 +7,7 @@ import (
 	"io"
 	"path/filepath"
 	"reflect"
+	"sort"
 	"strconv"
 	"strings"
 )
@@ -770,6 +771,7 @@ func (n *ExtendsNode) Render(w io.Writer, ctx *RenderContext) error {
 type IncludeNode struct {
 	template      Node
 	variables     map[string]Node
+	variableOrder []string // the names of variables in the order in which they are written
 	ignoreMissing bool
 	only          bool
 	sandboxed     bool
@@ -884,8 +886,19 @@ func (n *IncludeNode) Render(w io.Writer, ctx *RenderContext) error {
 
 	// Pre-evaluate all variables before setting them
 	if len(n.variables) > 0 {
-		for name, valueNode := range n.variables {
-			value, err := ctx.EvaluateExpression(valueNode)
+		// in the order of writing, like the entries of a hash literal: ranging
+		// over the map would evaluate them (and report their failures) in a
+		// different order on every render
+		names := n.variableOrder
+		if len(names) != len(n.variables) {
+			names = names[:0:0]
+			for name := range n.variables {
+				names = append(names, name)
+			}
+			sort.Strings(names)
+		}
+		for _, name := range names {
+			value, err := ctx.EvaluateExpression(n.variables[name])
 			if err != nil {
 				return err
 			}
